@@ -393,7 +393,7 @@ impl SseDecoder {
 
 #[cfg(kani)]
 #[path = "/verif/harness/rip-provider-openresponses/lib.rs"]
-mod verif_kani;
+pub mod verif_kani;
 
 #[cfg(test)]
 mod tests {
